@@ -40,6 +40,24 @@ def rand_pattern(rng, names, weird=True):
     return p
 
 
+def derived_paths(rng, pat):
+    """paths shaped after the pattern itself (each segment instantiated), at the top, nested, and with something below"""
+    import re as _re
+    segs = [x for x in pat.strip("/").split("/") if x]
+    if not segs or len(segs) > 4:
+        return []
+    inst = []
+    for sg in segs:
+        if sg == "**":
+            inst.append(rng.choice(["m", "m/n"]))
+            continue
+        t = _re.sub(r"\[[^\]]*\]", "a", sg).replace("*", rng.choice(["", "x", "xy"])).replace("?", "y")
+        inst.append(t or "z")
+    body = "/".join(inst)
+    out = ["/" + body, "/" + body + "/below", "/top/" + body, "/top/deep/" + body + "/below"]
+    return [p for p in out if gen.is_valid_apath(p)]
+
+
 def model_excl(ctx, queries, tag):
     """queries: list of (patterns, [paths]) -> list of lists of codes via Glob.excl_str."""
     shards = 8
@@ -97,6 +115,8 @@ def l1_patterns(ctx, n):
         for _ in range(10):
             d = ctx.rng.randrange(0, 4)
             paths.append("/" + "/".join(ctx.rng.choice(names + ["c", "ab.o", "a c", "xa"]) for _ in range(d)))
+        for pat in pats:
+            paths.extend(derived_paths(ctx.rng, pat))
         queries.append((pats, paths))
     impl = ctx.cvh_eval([{"fn": "excl", "pats": p, "paths": q} for p, q in queries])
     model = model_excl(ctx, queries, "l1")
@@ -169,6 +189,12 @@ def end_to_end(ctx, n):
         pats = []
         if trap is not None:
             pats.append(trap)
+        if t % 3 == 1:
+            # an unanchored pattern of two plain names, parent/child, taken from the tree: it matches at any depth
+            nested = [(p, n) for p, n in gen.tree_paths(tree) if p.count("/") >= 2 and not set(p) & set("*?[]{},\\!\n")]
+            if nested:
+                pp = ctx.rng.choice(nested)[0]
+                pats.append("/".join(pp.split("/")[-2:]))
         for _ in range(ctx.rng.choice([1, 1, 2, 3])):
             for _try in range(20):
                 p = rand_pattern(ctx.rng, [x for x in names if not set(x) & set("*?[]{},\\!\n")] or LITS, weird=False)
@@ -210,6 +236,17 @@ def end_to_end(ctx, n):
         if pan or any(r[k].get("result") != "ok" for k in (2, 3, 4, 5, 6, 7)):
             ctx.oracle_fail("excl/op-failed", "an operation failed or crashed: " + json.dumps(pan or [x.get("err") for x in r if isinstance(x, dict) and x.get("err")])[:300], small)
             continue
+        if mo is not None and 3 not in mo and mo != m:
+            # the documented meaning of the patterns (the model) against what was stored / listed / restored
+            mmatched = {p for p, b in zip(paths, mo) if b == 1 and p != "/"}
+            mexpect = sorted((p for p in paths if p != "/" and not any(gen.comp_prefix(q, p) for q in mmatched)), key=gen.apath_key)
+            stored = [e["apath"] for e in r[7]["value"] if e["apath"] != "/"]
+            if stored != mexpect:
+                extra = [p for p in stored if p not in mexpect][:5]
+                missing = [p for p in mexpect if p not in stored][:5]
+                ctx.oracle_fail("excl/pattern-meaning", f"backup with {c['pats']!r}: by the documented meaning of the patterns (anchored with a leading '/', "
+                                f"otherwise matching at any depth; a match excludes everything below) it wrongly kept {extra}, wrongly dropped {missing}", small)
+                continue
         matched = {p for p, b in zip(paths, m) if b and p != "/"}
         expect = sorted((p for p in paths if p != "/" and not any(gen.comp_prefix(q, p) for q in matched)), key=gen.apath_key)
         full = [e["apath"] for e in r[3]["value"]]
